@@ -134,12 +134,13 @@ Lemma nv_c03_contain_load_1 :
   entry_model unq_go (ELoad false "main" all_on load_adv_run_panic) = Err "error in run: ".
 Proof.
   assert (H : entry_hyps (ELoad false "main" all_on load_adv_run_panic)).
-  { constructor; [discriminate|apply code2_ok|apply panic_state_ok]. }
+  { constructor; [apply code2_ok|apply panic_state_ok]. }
   split; [exact H|]. split; [exact (c03_contain unq_go _ H)|]. vm_compute. reflexivity.
 Qed.
 
 Definition load_advs : list (load_adv * outcome) :=
   [ (mkLoadAdv TopErr files1 (CRet keys5 code2) RRet 0, Err "error in load: ");
+    (mkLoadAdv TopPanic files1 (CRet keys5 code2) RRet 0, Err "error in load: ");    (* `*package`: recoverLoad *)
     (mkLoadAdv (TopRet stmts1) FPanic (CRet keys5 code2) RRet 0, Err "error in load: ");
     (mkLoadAdv (TopRet stmts1) FErr (CRet keys5 code2) RRet 0, Err "error in load: ");
     (mkLoadAdv (TopRet [imp "x" """\400"""]) files1 (CRet keys5 code2) RRet 0, Err "error in load: ");
@@ -217,9 +218,9 @@ Lemma nv_c03_contain_hyps_needed :
   eval_model unq_go false all_on
     (mkEvalAdv (ScanOk toks1) (PRet stmts1) files1 (CRet keys5 []) RRet (CRet keys5 code2)
        (RPanic (mkVmstate ["nil"; ""; "x"] [new_pos 1 2 1 1] 0 []))) = Escape "btErr" /\
-  (* the argument package of Load panics while it is read *)
+  (* (no longer a hypothesis, 8db5477) the argument package of Load panics while it is read: a load error *)
   load_model unq_go false "main" all_on (mkLoadAdv TopPanic files1 (CRet keys5 code2) RRet 0)
-    = Escape "loadPackage / loadFile" /\
+    = Err "error in load: " /\
   (* an unstamped backtrace entry in Func *)
   func_model 0 (FnPanic (mkVmstate keys5 [] 0 [new_pos 7 7 1 1])) = Escape "btErr" /\
   (* Func returning on an empty key table *)
